@@ -83,7 +83,7 @@ theorem set_keeps_keys_distinct (ps : Props) (k : Bytes) (v : Val) (h : ps.keys.
 /-- `d` objects nested in each other: the encoding is `(6+|k|)·d + 1` bytes long but decoding costs
 `(d+1)²` steps when the `a.Size()` re-walk of every child is charged — quadratic in the input length. -/
 theorem nested_cost_quadratic (k : Bytes) (d : Nat) :
-    size (nest k d .null) = (6 + k.length) * d + 1 ∧ costV (nest k d .null) = d * d + 2 * d + 1 :=
+    size (nest k d .null) = (6 + k.length) * d + 1 ∧ costV true (nest k d .null) = d * d + 2 * d + 1 :=
   ⟨size_nest k d, cost_nest k d⟩
 
 /-! ### regression witnesses of the repaired defects -/
